@@ -6,8 +6,11 @@ builders are not modelled):
     ∀ program p, ∀ configurations k₁ k₂ ∈ {prune on/off} × {multiplier
     threshold} × {Yao, GMW}, ∀ input x,
       (compile p k₁).compute x = (compile p k₂).compute x.
-It is FALSE on the pinned tree for the target axis (`C09_target_equivalence_fails`
-below; the GMW-target dividers differ from the Yao-target ones).
+It is FALSE on the current tree for the target axis (`C09_target_equivalence_fails`
+below; the GMW-target Goldschmidt divider is inexact and differs from the
+Yao-target long divider.  Two further divider defects found by this check –
+undriven result wires, operand-width panic – were fixed in /repo by 90ed06e
+and dcb521a).
 
 What is proved (level: translation validation):
 * `C09_options_preserve_meaning_partial` / `C09_checker_sound`: the
@@ -188,32 +191,63 @@ theorem C09_gmw_schedule (c : Circuit) (hssa : SSA c.numWires c.gates c.inputDef
 
 /-! ### The target axis of the full statement is false on the pinned tree -/
 
-/-- `func main(a, b int2) int2 { return a / int3(1) }` compiled by the real compiler for the Yao target, pruning on.
-line format: `32 4 2 i0.0.4;a0.4.5;x0.4.6;n1.5.7;n0.5.8;n6.7.9;n5.7.10;x9.1.11;n5.10.12;a10.7.13;x13.7.14;n5.14.15;a15.14.16;x16.14.17;a11.17.18;a12.17.19;x17.6.20;x18.9.21;x19.12.22;x20.5.31;n21.8.23;a23.8.24;x24.8.25;n22.25.26;a26.25.27;x27.25.28;x28.6.29;x29.5.30` -/
+/-- `func main(a, b uint2) uint2 { return a / b }` compiled by the real compiler (repo HEAD b8285b2) for the
+Yao target, pruning on (restoring long divider).
+line format: `25 4 2 i0.0.4;a0.4.5;x0.4.6;n1.5.7;n0.5.8;n2.7.9;a7.2.10;a8.2.11;x9.1.12;n5.10.13;x3.10.14;x3.11.15;a13.14.16;x16.10.17;a12.17.18;x17.6.24;x18.9.19;n19.11.20;a20.15.21;x21.11.22;x22.6.23` -/
 def witnessYao : Circuit :=
-  { numWires := 32, nIn := 4, nOut := 2,
+  { numWires := 25, nIn := 4, nOut := 2,
     gates := [
       ⟨.inv, 0, 0, 4⟩, ⟨.and, 0, 4, 5⟩, ⟨.xor, 0, 4, 6⟩, ⟨.xnor, 1, 5, 7⟩, ⟨.xnor, 0, 5, 8⟩,
-      ⟨.xnor, 6, 7, 9⟩, ⟨.xnor, 5, 7, 10⟩, ⟨.xor, 9, 1, 11⟩, ⟨.xnor, 5, 10, 12⟩, ⟨.and, 10, 7, 13⟩,
-      ⟨.xor, 13, 7, 14⟩, ⟨.xnor, 5, 14, 15⟩, ⟨.and, 15, 14, 16⟩, ⟨.xor, 16, 14, 17⟩, ⟨.and, 11, 17, 18⟩,
-      ⟨.and, 12, 17, 19⟩, ⟨.xor, 17, 6, 20⟩, ⟨.xor, 18, 9, 21⟩, ⟨.xor, 19, 12, 22⟩, ⟨.xor, 20, 5, 31⟩,
-      ⟨.xnor, 21, 8, 23⟩, ⟨.and, 23, 8, 24⟩, ⟨.xor, 24, 8, 25⟩, ⟨.xnor, 22, 25, 26⟩, ⟨.and, 26, 25, 27⟩,
-      ⟨.xor, 27, 25, 28⟩, ⟨.xor, 28, 6, 29⟩, ⟨.xor, 29, 5, 30⟩] }
+      ⟨.xnor, 2, 7, 9⟩, ⟨.and, 7, 2, 10⟩, ⟨.and, 8, 2, 11⟩, ⟨.xor, 9, 1, 12⟩, ⟨.xnor, 5, 10, 13⟩,
+      ⟨.xor, 3, 10, 14⟩, ⟨.xor, 3, 11, 15⟩, ⟨.and, 13, 14, 16⟩, ⟨.xor, 16, 10, 17⟩, ⟨.and, 12, 17, 18⟩,
+      ⟨.xor, 17, 6, 24⟩, ⟨.xor, 18, 9, 19⟩, ⟨.xnor, 19, 11, 20⟩, ⟨.and, 20, 15, 21⟩, ⟨.xor, 21, 11, 22⟩,
+      ⟨.xor, 22, 6, 23⟩] }
 
-/-- The same program compiled for the GMW target, pruning on: the divider's result wires are never driven, the two output wires have no producer.
-line format: `8 4 2 i0.0.4;a0.4.5` -/
+/-- The same program compiled for the GMW target, pruning on (Goldschmidt divider).
+line format: `112 4 2 i0.0.4;x1.0.5;x3.2.6;x0.4.7;x3.7.8;x2.7.9;x3.7.10;a2.8.11;a2.11.12;a6.11.13;a0.11.14;a5.11.15;a1.11.16;x12.2.17;x13.3.18;x14.0.19;x15.1.20;x17.7.21;x18.7.22;x21.7.23;x22.21.24;a18.23.25;a20.23.26;a16.23.27;a17.24.28;a18.24.29;a19.24.30;a20.24.31;a16.24.32;a28.25.34;a30.26.36;a32.32.38;x28.25.33;x30.26.35;x31.27.37;a37.27.41;a36.37.43;x33.7.39;x34.29.40;x36.37.42;x32.38.44;x39.7.45;x40.7.46;x27.41.47;a42.45.48;a32.47.51;x46.39.49;x47.32.50;a35.49.52;a42.49.53;a43.50.55;x43.50.54;x51.44.56;a52.48.57;a54.45.58;a54.49.59;x55.56.60;a60.45.62;x53.58.61;a61.58.63;a57.61.65;x57.61.64;x59.62.66;a64.2.68;a64.3.69;x58.63.67;x64.7.70;x64.7.71;x67.66.72;x68.7.73;x64.70.74;a0.73.77;x65.72.75;x0.73.76;a75.2.78;x75.7.79;x75.64.80;x76.7.81;x77.76.82;a81.9.87;x69.78.83;x79.64.84;x75.80.85;x81.9.86;x83.7.88;x87.86.89;a1.88.91;x1.88.90;a90.82.92;x90.82.93;a93.10.96;x91.92.94;x93.10.95;a95.89.98;x7.94.97;x96.98.99;x7.99.100;x100.7.101;a74.101.102;a85.101.103;x102.64.104;x103.75.105;x104.71.106;x105.84.107;a106.97.108;a107.97.109;x108.104.110;x109.105.111` -/
 def witnessGmw : Circuit :=
-  { numWires := 8, nIn := 4, nOut := 2,
+  { numWires := 112, nIn := 4, nOut := 2,
     gates := [
-      ⟨.inv, 0, 0, 4⟩, ⟨.and, 0, 4, 5⟩] }
+      ⟨.inv, 0, 0, 4⟩, ⟨.xor, 1, 0, 5⟩, ⟨.xor, 3, 2, 6⟩, ⟨.xor, 0, 4, 7⟩, ⟨.xor, 3, 7, 8⟩,
+      ⟨.xor, 2, 7, 9⟩, ⟨.xor, 3, 7, 10⟩, ⟨.and, 2, 8, 11⟩, ⟨.and, 2, 11, 12⟩, ⟨.and, 6, 11, 13⟩,
+      ⟨.and, 0, 11, 14⟩, ⟨.and, 5, 11, 15⟩, ⟨.and, 1, 11, 16⟩, ⟨.xor, 12, 2, 17⟩, ⟨.xor, 13, 3, 18⟩,
+      ⟨.xor, 14, 0, 19⟩, ⟨.xor, 15, 1, 20⟩, ⟨.xor, 17, 7, 21⟩, ⟨.xor, 18, 7, 22⟩, ⟨.xor, 21, 7, 23⟩,
+      ⟨.xor, 22, 21, 24⟩, ⟨.and, 18, 23, 25⟩, ⟨.and, 20, 23, 26⟩, ⟨.and, 16, 23, 27⟩, ⟨.and, 17, 24, 28⟩,
+      ⟨.and, 18, 24, 29⟩, ⟨.and, 19, 24, 30⟩, ⟨.and, 20, 24, 31⟩, ⟨.and, 16, 24, 32⟩, ⟨.and, 28, 25, 34⟩,
+      ⟨.and, 30, 26, 36⟩, ⟨.and, 32, 32, 38⟩, ⟨.xor, 28, 25, 33⟩, ⟨.xor, 30, 26, 35⟩, ⟨.xor, 31, 27, 37⟩,
+      ⟨.and, 37, 27, 41⟩, ⟨.and, 36, 37, 43⟩, ⟨.xor, 33, 7, 39⟩, ⟨.xor, 34, 29, 40⟩, ⟨.xor, 36, 37, 42⟩,
+      ⟨.xor, 32, 38, 44⟩, ⟨.xor, 39, 7, 45⟩, ⟨.xor, 40, 7, 46⟩, ⟨.xor, 27, 41, 47⟩, ⟨.and, 42, 45, 48⟩,
+      ⟨.and, 32, 47, 51⟩, ⟨.xor, 46, 39, 49⟩, ⟨.xor, 47, 32, 50⟩, ⟨.and, 35, 49, 52⟩, ⟨.and, 42, 49, 53⟩,
+      ⟨.and, 43, 50, 55⟩, ⟨.xor, 43, 50, 54⟩, ⟨.xor, 51, 44, 56⟩, ⟨.and, 52, 48, 57⟩, ⟨.and, 54, 45, 58⟩,
+      ⟨.and, 54, 49, 59⟩, ⟨.xor, 55, 56, 60⟩, ⟨.and, 60, 45, 62⟩, ⟨.xor, 53, 58, 61⟩, ⟨.and, 61, 58, 63⟩,
+      ⟨.and, 57, 61, 65⟩, ⟨.xor, 57, 61, 64⟩, ⟨.xor, 59, 62, 66⟩, ⟨.and, 64, 2, 68⟩, ⟨.and, 64, 3, 69⟩,
+      ⟨.xor, 58, 63, 67⟩, ⟨.xor, 64, 7, 70⟩, ⟨.xor, 64, 7, 71⟩, ⟨.xor, 67, 66, 72⟩, ⟨.xor, 68, 7, 73⟩,
+      ⟨.xor, 64, 70, 74⟩, ⟨.and, 0, 73, 77⟩, ⟨.xor, 65, 72, 75⟩, ⟨.xor, 0, 73, 76⟩, ⟨.and, 75, 2, 78⟩,
+      ⟨.xor, 75, 7, 79⟩, ⟨.xor, 75, 64, 80⟩, ⟨.xor, 76, 7, 81⟩, ⟨.xor, 77, 76, 82⟩, ⟨.and, 81, 9, 87⟩,
+      ⟨.xor, 69, 78, 83⟩, ⟨.xor, 79, 64, 84⟩, ⟨.xor, 75, 80, 85⟩, ⟨.xor, 81, 9, 86⟩, ⟨.xor, 83, 7, 88⟩,
+      ⟨.xor, 87, 86, 89⟩, ⟨.and, 1, 88, 91⟩, ⟨.xor, 1, 88, 90⟩, ⟨.and, 90, 82, 92⟩, ⟨.xor, 90, 82, 93⟩,
+      ⟨.and, 93, 10, 96⟩, ⟨.xor, 91, 92, 94⟩, ⟨.xor, 93, 10, 95⟩, ⟨.and, 95, 89, 98⟩, ⟨.xor, 7, 94, 97⟩,
+      ⟨.xor, 96, 98, 99⟩, ⟨.xor, 7, 99, 100⟩, ⟨.xor, 100, 7, 101⟩, ⟨.and, 74, 101, 102⟩, ⟨.and, 85, 101, 103⟩,
+      ⟨.xor, 102, 64, 104⟩, ⟨.xor, 103, 75, 105⟩, ⟨.xor, 104, 71, 106⟩, ⟨.xor, 105, 84, 107⟩, ⟨.and, 106, 97, 108⟩,
+      ⟨.and, 107, 97, 109⟩, ⟨.xor, 108, 104, 110⟩, ⟨.xor, 109, 105, 111⟩] }
+
 /-- **Negation witness** for "Yao and GMW targets give the same function":
 the two circuits above, both produced by the real compiler from
-`func main(a, b int2) int2 { return a / int3(1) }`, differ on a = 1
-(Yao: 1/1 = 1, GMW: 0).  The harness re-derives both circuits on every run
-(fixed corpus program `sdiv-const-narrow`) and replays the input on
-`circuit.Circuit.Compute`. -/
+`func main(a, b uint2) uint2 { return a / b }`, differ on a = 0, b = 0
+(Yao long divider: 3, GMW Goldschmidt divider: 1).  The harness re-derives
+both circuits on every run (fixed corpus program `udiv2`) and replays the
+input on `circuit.Circuit.Compute`.
+
+The stronger instance of the same defect – a wrong quotient for a NON-zero
+divisor, `uint7` 127/13 = 11 under GMW (9 under Yao) – needs the 3405-gate
+GMW divider of width 7 (no narrower width has one; widths 2..6 and 8 are
+exact for b ≠ 0); kernel evaluation of that circuit in this store model does
+not terminate in reasonable time, so it is an EXECUTED check, not a theorem:
+on every run the compiled Lean model (`drv_c09`) evaluates the two real
+width-7 circuits on a = 127, b = 13 next to `Circuit.Compute` (op line
+`fixed:udiv7|witness/127-13`, evidence `coverage.inexact_witness_executed`). -/
 theorem C09_target_equivalence_fails :
-    witnessYao.compute [true, false, false, false] ≠ witnessGmw.compute [true, false, false, false] := by
+    witnessYao.compute [false, false, false, false] ≠ witnessGmw.compute [false, false, false, false] := by
   decide +kernel
 
 /-! ### Non-vacuity -/
